@@ -16,6 +16,8 @@ pub struct ClientArgs {
     pub nreq: u8,
     /// 0 plain, 1 -v, 2 -j, 3 default time format (no -f)
     pub mode: u8,
+    /// None: run with -z (UTC). Some(tz): run WITHOUT -z under this TZ (local-time output path)
+    pub local_tz: Option<String>,
 }
 
 #[derive(Debug, Clone)]
@@ -65,7 +67,10 @@ pub fn run_client(args: &ClientArgs, mut respond: impl FnMut(&[Vec<u8>]) -> Vec<
     mock.set_read_timeout(Some(Duration::from_millis(50))).unwrap();
     let port = mock.local_addr().unwrap().port();
     let mut cmd = Command::new(CLIENT_BIN);
-    cmd.arg("-z").arg("-t").arg("3");
+    if args.local_tz.is_none() {
+        cmd.arg("-z");
+    }
+    cmd.arg("-t").arg("3");
     if args.mode != 3 {
         cmd.arg("-f").arg("TIME=%s %f");
     }
@@ -88,7 +93,7 @@ pub fn run_client(args: &ClientArgs, mut respond: impl FnMut(&[Vec<u8>]) -> Vec<
         _ => {}
     }
     cmd.arg("127.0.0.1").arg(port.to_string());
-    cmd.env("RUST_BACKTRACE", "0").env("TZ", "UTC").stdin(Stdio::null()).stdout(Stdio::piped()).stderr(Stdio::piped());
+    cmd.env("RUST_BACKTRACE", "0").env("TZ", args.local_tz.as_deref().unwrap_or("UTC")).stdin(Stdio::null()).stdout(Stdio::piped()).stderr(Stdio::piped());
     let mut child = cmd.spawn().map_err(|e| LabErr::Harness(format!("spawn {}: {}", CLIENT_BIN, e)))?;
     let mut so = child.stdout.take().unwrap();
     let mut se = child.stderr.take().unwrap();
